@@ -95,8 +95,17 @@ pub enum Subject {
     Ja(JoinAll<SFut>),
     JaP(JoinAll<PFut>),
     TjaP(TryJoinAll<PTry>),
+    JaO(JoinAll<OFut>),
+    TjaO(TryJoinAll<OTry>),
     Tja(TryJoinAll<STry>),
     Dead,
+}
+
+/// the "lazy" constructors: an iterator whose size hint brackets its length loosely - lower bound 0, upper bound a few
+/// more than it yields (the padding is filtered out)
+fn lazy(init: &[u32]) -> impl Iterator<Item = &u32> + '_ {
+    static PAD: [u32; 4] = [0; 4];
+    init.iter().chain(PAD[..init.len() % 4 + 1].iter()).filter(|c| **c != 0)
 }
 
 pub struct Runner {
@@ -115,6 +124,7 @@ enum PollOut {
     ItemErr(Token),
     Done,
     Vec(Vec<Token>),
+    VecP(Vec<PTok>),
     Err(Token),
 }
 
@@ -143,7 +153,7 @@ impl Runner {
             match kind.as_str() {
                 "fub" => {
                     if ctor == "from_iter_lazy" {
-                        Subject::Fub(init.iter().filter(|_| true).map(|c| SFut::new(*c)).collect())
+                        Subject::Fub(lazy(&init).map(|c| SFut::new(*c)).collect())
                     } else if ctor == "from_iter" {
                         Subject::Fub(init.iter().map(|c| SFut::new(*c)).collect())
                     } else {
@@ -156,12 +166,14 @@ impl Runner {
                     "new" => Subject::Fu(FuturesUnordered::new()),
                     "from_iter" => Subject::Fu(init.iter().map(|c| SFut::new(*c)).collect()),
                     // an iterator that under-reports its length (lower bound 0)
-                    "from_iter_lazy" => Subject::Fu(init.iter().filter(|_| true).map(|c| SFut::new(*c)).collect()),
+                    "from_iter_lazy" => Subject::Fu(lazy(&init).map(|c| SFut::new(*c)).collect()),
                     _ => Subject::Fu(FuturesUnordered::with_capacity(cap)),
                 },
                 "fob" => {
                     let mut q = if ctor == "from_iter" {
                         init.iter().map(|c| SFut::new(*c)).collect()
+                    } else if ctor == "from_iter_lazy" {
+                        lazy(&init).map(|c| SFut::new(*c)).collect()
                     } else {
                         FuturesOrderedBounded::new(cap)
                     };
@@ -175,7 +187,7 @@ impl Runner {
                         "new" if cap % 2 == 1 => FuturesOrdered::default(),
                         "new" => FuturesOrdered::new(),
                         "from_iter" => init.iter().map(|c| SFut::new(*c)).collect(),
-                        "from_iter_lazy" => init.iter().filter(|_| true).map(|c| SFut::new(*c)).collect(),
+                        "from_iter_lazy" => lazy(&init).map(|c| SFut::new(*c)).collect(),
                         _ => FuturesOrdered::with_capacity(cap),
                     };
                     if let (Some(s), true) = (start, init.is_empty()) {
@@ -184,11 +196,12 @@ impl Runner {
                     Subject::Fo(q)
                 }
                 // MergeBounded offers only FromIterator: its capacity is the number of initial sources
+                "mb" if ctor == "from_iter_lazy" => Subject::Mb(lazy(&init).map(|c| SStream::new(*c)).collect()),
                 "mb" => Subject::Mb(init.iter().map(|c| SStream::new(*c)).collect()),
                 "mu" => match ctor.as_str() {
                     "new" if cap % 2 == 1 => Subject::Mu(MergeUnbounded::default()),
                     "new" => Subject::Mu(MergeUnbounded::new()),
-                    "from_iter" | "from_iter_lazy" => Subject::Mu(init.iter().filter(|_| true).map(|c| SStreamU::new(*c)).collect()),
+                    "from_iter" | "from_iter_lazy" => Subject::Mu(lazy(&init).map(|c| SStreamU::new(*c)).collect()),
                     // (the seeding constructor is not part of the crate's interface: capacity 0 is not a legal request)
                     _ if cap == 0 => Subject::Mu(MergeUnbounded::new()),
                     _ => Subject::Mu(MergeUnbounded::verif_with_first_capacity(cap)),
@@ -203,10 +216,12 @@ impl Runner {
                     fe_make as FeFn,
                 ))),
                 // (an iterator without an exact size hint for the "lazy" constructor)
+                "ja" if ctor == "plainout" => Subject::JaO(join_all(init.iter().map(|c| OFut::new(*c)))),
+                "tja" if ctor == "plainout" => Subject::TjaO(try_join_all(init.iter().map(|c| OTry::new(*c)))),
                 "ja" if ctor == "plain" => Subject::JaP(join_all(init.iter().map(|c| PFut::new(*c)))),
                 "tja" if ctor == "plain" => Subject::TjaP(try_join_all(init.iter().map(|c| PTry::new(*c)))),
-                "ja" if ctor == "from_iter_lazy" => Subject::Ja(join_all(init.iter().filter(|_| true).map(|c| SFut::new(*c)))),
-                "tja" if ctor == "from_iter_lazy" => Subject::Tja(try_join_all(init.iter().filter(|_| true).map(|c| STry::new(*c)))),
+                "ja" if ctor == "from_iter_lazy" => Subject::Ja(join_all(lazy(&init).map(|c| SFut::new(*c)))),
+                "tja" if ctor == "from_iter_lazy" => Subject::Tja(try_join_all(lazy(&init).map(|c| STry::new(*c)))),
                 "ja" => Subject::Ja(join_all(init.iter().map(|c| SFut::new(*c)))),
                 "tja" => Subject::Tja(try_join_all(init.iter().map(|c| STry::new(*c)))),
                 k => panic!("unknown kind {k}"),
@@ -319,31 +334,7 @@ impl Runner {
         let parked = produced - self.yielded;
         if is_merge(&self.kind) {
             // items still to come from the live sources: scripted "I" steps plus drain-phase items
-            with(|w| {
-                alive
-                    .iter()
-                    .map(|c| {
-                        let mut n = 0i64;
-                        let mut ended = false;
-                        if let Some(q) = w.scripts.get(c) {
-                            for st in q.iter() {
-                                if st.resp == "I" {
-                                    n += 1
-                                }
-                                if st.resp == "E" {
-                                    ended = true;
-                                    break;
-                                }
-                            }
-                        }
-                        if ended {
-                            n
-                        } else {
-                            n + *w.stream_left.get(c).unwrap_or(&0) as i64
-                        }
-                    })
-                    .sum::<i64>()
-            }) + parked
+            with(|w| alive.iter().map(|c| source_left(w, *c).1 as i64).sum::<i64>()) + parked
         } else {
             let up = if is_adapter(&self.kind) { up_remaining() } else { 0 };
             up + alive.len() as i64 + parked
@@ -466,6 +457,15 @@ impl Runner {
                     Poll::Pending => PollOut::Pending,
                     Poll::Ready(v) => PollOut::Vec(v),
                 },
+                Subject::JaO(q) => match Pin::new(q).poll(&mut cx) {
+                    Poll::Pending => PollOut::Pending,
+                    Poll::Ready(v) => PollOut::VecP(v),
+                },
+                Subject::TjaO(q) => match Pin::new(q).poll(&mut cx) {
+                    Poll::Pending => PollOut::Pending,
+                    Poll::Ready(Ok(v)) => PollOut::VecP(v),
+                    Poll::Ready(Err(e)) => PollOut::Err(e),
+                },
                 Subject::JaP(q) => match Pin::new(q).poll(&mut cx) {
                     Poll::Pending => PollOut::Pending,
                     Poll::Ready(v) => PollOut::Vec(v),
@@ -528,6 +528,20 @@ impl Runner {
                     } else {
                         ids.push("-1".to_string());
                         std::mem::forget(t);
+                    }
+                }
+                ev(format!(r#"{{"e":"vec","v":[{}],"al":{}}}"#, ids.join(","), al));
+            }
+            Ok(PollOut::VecP(v)) => {
+                ended = true;
+                let mut ids = vec![];
+                for t in v {
+                    if t.valid() && with(|w| w.plain_out.get(&(t.c, t.k)) == Some(&false)) {
+                        ids.push(t.c.to_string());
+                        with(|w| w.plain_out.insert((t.c, t.k), true));
+                    } else {
+                        // garbage, or an identity handed out before
+                        ids.push("-1".to_string());
                     }
                 }
                 ev(format!(r#"{{"e":"vec","v":[{}],"al":{}}}"#, ids.join(","), al));
@@ -626,6 +640,7 @@ impl Runner {
             drop(s);
         }));
         plain_released_with_collection();
+        plain_outputs_gone(false);
         take_allocs();
         ev(r#"{"e":"dropc_e"}"#.to_string());
     }
@@ -696,6 +711,7 @@ impl Runner {
         take_allocs();
         let rec = std::mem::take(&mut self.received);
         drop(rec);
+        plain_outputs_gone(true);
         let (c, d) = (
             TW_CLONES.load(std::sync::atomic::Ordering::SeqCst),
             TW_DROPS.load(std::sync::atomic::Ordering::SeqCst),
